@@ -242,7 +242,7 @@ pub fn run(ctx: &mut Ctx) {
     alphabet.push(Op::Reopen(false, R::C_NONE));
     alphabet.push(Op::Reopen(true, R::C_NONE));
     let k = alphabet.len() as u64; // 11
-    let len = ctx.n(4, 6) as u32;
+    let len = ctx.n(5, 6) as u32;
     let universe = [3u64, 4, 5, 6, 7];
     let mut case = 0u64;
     for l in 1..=len {
